@@ -407,4 +407,6 @@ def run(ck, tier):
     ck.assume('address arithmetic of getValues/setValues inside the data blocks is decided by C18, not here')
     ck.assume('partial writes of a custom datastore that raises inside setValues are not decided')
     ck.assume('attribute <-> wire-field binding of the guarded quantities is decided by C01/C02')
+    from .. import ownership as _own
+    ck.guard(_own.rule_instance_owned, ck, cx, 'R9', _own.DECODERS[:1], "a function code registered on another server's decoder is executed here instead of being answered with exception 01", 2)
     return cx.idx
